@@ -2896,19 +2896,36 @@ protected:
             format( valCopy);
             auto const  pos = boost::lexical_cast< size_t>( valCopy);
             if (pos >= mDestVar.size())
-               mDestVar.resize( pos * 1.5);
+               mDestVar.resize( sizeForPosition( pos));
             mDestVar[ pos] = !mResetFlags;
          } else
          {
             auto const  pos = boost::lexical_cast< size_t>( listVal);
             if (pos >= mDestVar.size())
-               mDestVar.resize( pos * 1.5);
+               mDestVar.resize( sizeForPosition( pos));
             mDestVar[ pos] = !mResetFlags;
          } // end if
       } // end for
    } // TypedArg< std::vector< bool>>::assign
 
 private:
+   /// Returns the size for the vector so that it includes the given position,
+   /// with some room for the positions that follow. Computed with integers:
+   /// the result of a floating point multiplication does not fit back into a
+   /// size_t for very large positions.
+   ///
+   /// @param[in]  pos  The position that must exist afterwards.
+   /// @return  The new size for the vector.
+   /// @throw  std::length_error if the position is too big for a vector.
+   /// @since  x.y.z, 01.10.2026
+   size_t sizeForPosition( size_t pos) const noexcept( false)
+   {
+      if (pos >= mDestVar.max_size() / 2)
+         throw std::length_error( "position " + std::to_string( pos)
+            + " is too big for variable '" + mVarName + "'");
+      return pos + 1 + pos / 2;
+   } // TypedArg< std::vector< bool>>::sizeForPosition
+
    /// Returns if no bit is set.
    ///
    /// @return  \c true if no bit is set.
